@@ -71,7 +71,11 @@ pub mod k256 {
         pub uninterp spec fn sk_public(k: &SigningKey) -> VerifyingKey;
         /// 33-byte compressed SEC1 form / 64-byte x||y form of a verifying key
         pub open spec fn vk_compressed(k: &VerifyingKey) -> Seq<u8> { crate::standin::k256::cp_ref(&crate::standin::k256::cp_of(k))@ }
-        pub uninterp spec fn vk_xy(k: &VerifyingKey) -> Seq<u8>;
+        /// affine coordinates of the key's curve point, 32-byte big-endian each
+        pub uninterp spec fn pt_x(k: &VerifyingKey) -> Seq<u8>;
+        pub uninterp spec fn pt_y(k: &VerifyingKey) -> Seq<u8>;
+        pub open spec fn pt_y_odd(k: &VerifyingKey) -> bool { pt_y(k)[31] % 2 == 1 }
+        pub open spec fn vk_xy(k: &VerifyingKey) -> Seq<u8> { pt_x(k) + pt_y(k) }
         /// v4 verification as EIP-778 states it: the signature field parses as a 64-byte r||s signature and verifies
         /// (low-S, over keccak256 of the message) under the key
         pub open spec fn vk_verify_v4(k: &VerifyingKey, msg: Seq<u8>, sig: Seq<u8>) -> bool {
@@ -129,12 +133,80 @@ pub mod k256 {
             pub trait RandomizedDigestSigner {}
         }
     }
+    /// field element / coordinate: 32 bytes (`GenericArray<u8, U32>` in the library; it derefs to `[u8]` and is `Copy`)
+    pub type FieldBytes = [u8; 32];
     pub mod elliptic_curve {
         pub mod point { pub trait DecompressPoint {} }
-        pub mod sec1 { pub struct Coordinates {} pub trait ToEncodedPoint {} }
-        pub mod subtle { pub struct Choice {} }
+        pub mod sec1 {
+            /// `sec1::Coordinates`: the four shapes of a SEC1 encoded point (same variants and fields as the library's enum)
+            pub enum Coordinates<'a> {
+                Identity,
+                Compact { x: &'a crate::standin::k256::FieldBytes },
+                Compressed { x: &'a crate::standin::k256::FieldBytes, y_is_odd: bool },
+                Uncompressed { x: &'a crate::standin::k256::FieldBytes, y: &'a crate::standin::k256::FieldBytes },
+            }
+            pub trait ToEncodedPoint {}
+        }
+        pub mod subtle {
+            use vstd::prelude::*;
+            /// `subtle::Choice`: a 0/1 byte; `Choice::from(b)` keeps b
+            pub struct Choice { pub bit: u8 }
+            impl From<u8> for Choice {
+                #[verifier::external_body]
+                fn from(b: u8) -> (r: Choice) { unimplemented!() }
+            }
+            impl vstd::std_specs::convert::FromSpecImpl<u8> for Choice {
+                open spec fn obeys_from_spec() -> bool { true }
+                open spec fn from_spec(b: u8) -> Self { Choice { bit: b } }
+            }
+            /// `subtle::CtOption`
+            #[verifier::external_body]
+            #[verifier::reject_recursive_types(T)]
+            pub struct CtOption<T> { _p: core::marker::PhantomData<T> }
+            pub uninterp spec fn ct_val<T>(c: &CtOption<T>) -> Option<T>;
+            impl<T> CtOption<T> {
+                /// panics on "none": the caller must know the value is there
+                #[verifier::external_body]
+                pub fn unwrap(self) -> (r: T)
+                    requires ct_val(&self) is Some,
+                    ensures Some(r) == ct_val(&self),
+                { unimplemented!() }
+            }
+        }
     }
-    pub struct AffinePoint {}
+    #[verifier::external_body]
+    pub struct AffinePoint { _p: () }
+    /// k256: `AffinePoint::decompress(x, y_is_odd)` as a function of its arguments, and the y coordinate of an affine point
+    pub uninterp spec fn decompress_spec(x: Seq<u8>, odd: bool) -> Option<AffinePoint>;
+    pub uninterp spec fn ap_y(a: &AffinePoint) -> Seq<u8>;
+    /// `EncodedPoint::from(&key)`, the coordinates an encoded point holds, its y coordinate if it holds one
+    pub uninterp spec fn ep_of(k: &ecdsa::VerifyingKey) -> EncodedPoint;
+    pub uninterp spec fn ep_coords<'a>(p: &'a EncodedPoint) -> elliptic_curve::sec1::Coordinates<'a>;
+    pub uninterp spec fn ep_y(p: &EncodedPoint) -> Option<Seq<u8>>;
+    /// k256 (LIBRARY LAW, assumed): a verifying key is a finite curve point with 32-byte coordinates; decompressing its x with the
+    /// parity of its y gives the point back; the SEC1 encoding of the key is the compressed or the uncompressed form of that
+    /// point (never the identity or the compact form)
+    #[verifier::external_body]
+    pub proof fn axiom_vk_point(k: ecdsa::VerifyingKey)
+        ensures
+            ecdsa::pt_x(&k).len() == 32, ecdsa::pt_y(&k).len() == 32,
+            decompress_spec(ecdsa::pt_x(&k), ecdsa::pt_y_odd(&k)) matches Some(a) && ap_y(&a) == ecdsa::pt_y(&k),
+            (ep_coords(&ep_of(&k)) matches elliptic_curve::sec1::Coordinates::Compressed { x, y_is_odd }
+                && x@ == ecdsa::pt_x(&k) && y_is_odd == ecdsa::pt_y_odd(&k))
+            || (ep_coords(&ep_of(&k)) matches elliptic_curve::sec1::Coordinates::Uncompressed { x, y }
+                && x@ == ecdsa::pt_x(&k) && y@ == ecdsa::pt_y(&k)),
+    {}
+    impl AffinePoint {
+        #[verifier::external_body]
+        pub fn decompress(x: &FieldBytes, c: elliptic_curve::subtle::Choice) -> (r: elliptic_curve::subtle::CtOption<AffinePoint>)
+            ensures elliptic_curve::subtle::ct_val(&r) == decompress_spec(x@, c.bit == 1),
+        { unimplemented!() }
+        /// only the uncompressed form is specified: it holds the point's y coordinate
+        #[verifier::external_body]
+        pub fn to_encoded_point(&self, compress: bool) -> (r: EncodedPoint)
+            ensures !compress ==> ep_y(&r) == Some(ap_y(self)),
+        { unimplemented!() }
+    }
     /// 33-byte compressed SEC1 point
     #[verifier::external_body]
     pub struct CompressedPoint { _p: () }
@@ -163,7 +235,26 @@ pub mod k256 {
             ensures r@ == cp_ref(self)@,
         { unimplemented!() }
     }
-    pub struct EncodedPoint {}
+    #[verifier::external_body]
+    pub struct EncodedPoint { _p: () }
+    impl From<&ecdsa::VerifyingKey> for EncodedPoint {
+        #[verifier::external_body]
+        fn from(k: &ecdsa::VerifyingKey) -> (r: EncodedPoint) { unimplemented!() }
+    }
+    impl vstd::std_specs::convert::FromSpecImpl<&ecdsa::VerifyingKey> for EncodedPoint {
+        open spec fn obeys_from_spec() -> bool { true }
+        open spec fn from_spec(k: &ecdsa::VerifyingKey) -> Self { ep_of(k) }
+    }
+    impl EncodedPoint {
+        #[verifier::external_body]
+        pub fn coordinates(&self) -> (r: elliptic_curve::sec1::Coordinates<'_>)
+            ensures r == ep_coords(self),
+        { unimplemented!() }
+        #[verifier::external_body]
+        pub fn y(&self) -> (r: Option<&FieldBytes>)
+            ensures r is Some <==> ep_y(self) is Some, r matches Some(v) ==> ep_y(self) == Some(v@),
+        { unimplemented!() }
+    }
 }
 
 pub mod ed25519_dalek {
